@@ -215,6 +215,19 @@ def engine_scenarios(tier, seed):
         for rep in range(2 if quick else 6):
             add("watchsig_%s_%d" % (f["family"], rep), dict(f, watch=True), {}, actions=[(rng.uniform(0.3, 1.2), rng.choice(["INT", "TERM"]))],
                 args=["--watch"] + ["t%d" % r for r in f["roots"]], expect={"signal": True}, timeout=10)
+    # scale (C04 "graphs of any depth and width", queues filling up): only start/finish/exit are validated for these
+    def scale(name, kinds, deps, roots):
+        c = gen_configs.finish({"n": len(kinds), "kind": kinds, "deps": deps, "roots": roots}, 800 + len(sc))
+        c["id"] = "bbs_%s" % name
+        c["scale"] = True
+        sc.append({"name": "scale_" + name, "cfg": c, "bodies": {}, "actions": [], "args": ["t%d" % r for r in roots], "expect": {}, "timeout": 60})
+    w = 400
+    scale("fanin_%d" % w, ["b"] + ["a"] * w + ["a"], [[]] + [[1]] * w + [list(range(2, w + 2))], [w + 2])
+    scale("chain_150", ["b"] * 150, [[]] + [[i] for i in range(1, 150)], [150])
+    scale("fanout_150", ["b"] * 150 + ["a"], [[] for _ in range(150)] + [list(range(1, 151))], [151])
+    if not quick:
+        scale("lattice", ["b"] * 64, [[j for j in (i - 8, i - 1) if j >= 1 and (j != i - 1 or (i - 1) % 8 != 0)] for i in range(1, 65)], [64])
+        scale("roots_50", ["b"] * 50, [[] for _ in range(50)], list(range(1, 51)))
     # watch mode on real inotify: clean-tree start, edits while building, convergence, no rebuild loop
     for rep_ in range(4 if quick else 24):
         sc.append({"type": "watchconv", "name": "watchconv_%d" % rep_, "clean_tree": rep_ % 2 == 0, "edits": rng.randint(1, 3),
